@@ -51,6 +51,7 @@ struct WorldCfg {
     bool fault_mode = false;   // afail: the armed step may fail cleanly
     bool hist_faults = false;  // hist (C07/C14 fault-injecting runs): an "arm" step makes request k of the next core call fail
     bool shared_world = false;   // sched: hooks are installed before the tasks start and the ledger is shared by all tasks
+    bool structure_only_utils = false; // C19: Utils calls other than sort are judged for the well-formedness of what they leave behind only
     bool judge_followup = false; // C17-C19: core edits on trees that went through a Utils call are judged too
     bool judge_independence = false; // C11: a tree not involved in a call must not change
     int hookcfg = HK_DEFAULT;
@@ -78,6 +79,7 @@ class World {
     RunStats &stats;
     MVal *slots[NSLOTS];
     int cur_step = -1;
+    std::string cur_op;
     bool cur_judged = true;
     long arm_fail_k = 0;       // afail: request index to fail in the armed step (0: none)
     int armed_step = -1;
